@@ -51,6 +51,19 @@ def _replay_run(binp, harness, vals):
 
 def replay_file(prop, path):
     d = json.load(open(path))
+    if d.get("witness_search") and d.get("inputs") and "defrag_search" not in d["witness_search"]:
+        binp, err = _replay_build()
+        if not binp:
+            print("replay crate failed to build: " + err)
+            return 2
+        import subprocess
+        pr = subprocess.run([binp, "--stdin"], input=json.dumps(d["witness_search"]), stdout=subprocess.PIPE,
+                            stderr=subprocess.PIPE, text=True, timeout=600, env=common.env())
+        print(pr.stdout.strip())
+        if '"violation"' in pr.stdout:
+            print("VIOLATION property=%s replay=%s" % (prop, path))
+            return 1
+        return 0
     if d.get("witness_search") and d.get("inputs"):
         binp, err = _replay_build()
         if not binp:
@@ -208,7 +221,11 @@ def check_property(pid, tier, seed, canary=True):
     # ------------------------------------------------------------------ known findings, replay
     new_viol = []
     known_hit = []
+    seen_obl = set()
     for v in violations:
+        if v["obligation"] in seen_obl:
+            continue
+        seen_obl.add(v["obligation"])
         if v["obligation"] in known_obl:
             known_hit.append(known_obl[v["obligation"]])
         else:
@@ -221,6 +238,7 @@ def check_property(pid, tier, seed, canary=True):
         os.makedirs(REPLAY_DIR, exist_ok=True)
         binp = None
         playback_cache = {}
+        ws_cache = {}
         # paired Kani harnesses of failed Verus units: one parallel run to find the ones that fail
         paired_failed = {}
         need = []
@@ -270,7 +288,14 @@ def check_property(pid, tier, seed, canary=True):
                     break
             # units with an execution-based witness finder (bounded search on the real code; finder only)
             ws = cfg.get("witness_search", {}).get(v.get("unit")) if v["engine"] == "verus" else None
-            if ws and not reproduced:
+            if ws and not reproduced and json.dumps(ws) in ws_cache:
+                rr = ws_cache[json.dumps(ws)]
+                rep["replay"] = rr
+                rep["witness_search"] = ws
+                if rr.get("outcome") == "violation":
+                    rep["inputs"] = rr.get("defrag_history") or rr.get("detail")
+                    reproduced = True
+            elif ws and not reproduced:
                 if binp is None:
                     binp, err = _replay_build()
                 if binp:
@@ -281,10 +306,11 @@ def check_property(pid, tier, seed, canary=True):
                         rr = json.loads(pr.stdout.strip().split("\n")[-1])
                     except Exception as ex:
                         rr = {"outcome": "error", "detail": str(ex)}
+                    ws_cache[json.dumps(ws)] = rr
                     rep["replay"] = rr
                     rep["witness_search"] = ws
                     if rr.get("outcome") == "violation":
-                        rep["inputs"] = rr.get("defrag_history")
+                        rep["inputs"] = rr.get("defrag_history") or rr.get("detail")
                         reproduced = True
             write_json(path, rep)
             line = "VIOLATION property=%s replay=%s" % (pid, path)
